@@ -30,6 +30,8 @@ def _mk():
             if v.shape is not None and len(v.shape) > 0 and v.kind == "tensor":
                 return v.shape[0]
             return TV(T("len", (v.term,)), kind="opaque")
+        if isinstance(v, Obj) and isinstance(v.attrs.get("_modules"), dict):
+            return len(v.attrs["_modules"])  # nn container: number of entries
         if isinstance(v, Obj):
             return TV(T("len", (A._term(v),)), kind="opaque")
         if isinstance(v, Unknown):
